@@ -313,7 +313,8 @@ def grNBit (flags : Nat) : Bool := (flags / 4) % 2 == 1
 def grStep (c : LocalCfg) (cm : List Cap) (s : PeerState) : PeerState :=
   match c.grEnabled, lastGr (capsOf 64 cm) with
   | true, some (flags, time, tuples) =>
-    let afs1 := tuples.foldl
+    -- a tuple of a family the session does not carry (not in the negotiated family map) is skipped
+    let afs1 := (tuples.filter (fun t => s.familyMap.any (fun e => e.1 == t.1))).foldl
       (fun afs t => updFirst t.1 (fun x => { x with mpEnabled := true, mpReceived := true }) c.afs afs) s.afs
     let afs2 := if c.localRestarting && grRBit flags then afs1.map (fun x => { x with eor := true }) else afs1
     { s with grEnabled := true, peerRestartTime := time, afs := afs2,
